@@ -499,10 +499,31 @@ def added_includes(backend: str, includes: List[str]) -> List[str]:
 
 
 def observe(backend: str, e) -> Dict[str, Any]:
-    r = run_pipeline(backend, to_src(e))
+    return _observe_src((backend, to_src(e)))
+
+
+def _observe_src(job: Tuple[str, str]) -> Dict[str, Any]:
+    backend, src = job
+    r = run_pipeline(backend, src)
     if "err" in r:
         return r
     return {"text": r["text"], "declTy": r["declTy"], "incs": added_includes(backend, r["includes"])}
+
+
+def observe_many(jobs: List[Tuple[str, str]]) -> List[Dict[str, Any]]:
+    """the pipeline runs are independent of each other: spread them over the cores (results do not depend on the worker)"""
+    for b in BACKENDS:
+        added_includes(b, [])  # baselines are computed before forking
+    if len(jobs) < 64:
+        return [_observe_src(j) for j in jobs]
+    import multiprocessing as mp
+    from concurrent.futures import ProcessPoolExecutor
+
+    try:
+        with ProcessPoolExecutor(max_workers=min(12, os.cpu_count() or 2), mp_context=mp.get_context("fork")) as ex:
+            return list(ex.map(_observe_src, jobs, chunksize=32))
+    except Exception:  # no pool available: serial
+        return [_observe_src(j) for j in jobs]
 
 
 # --------------------------------------------------------------------------------------------
@@ -514,7 +535,23 @@ def _c_round(x: float) -> float:
     return math.copysign(math.floor(abs(x) + 0.5), x)
 
 
+def _ilogb(x: float) -> float:
+    if x == 0 or math.isinf(x) or math.isnan(x):
+        raise ValueError("ilogb: FP_ILOGB0 / FP_ILOGBNAN / INT_MAX are outside the domain")
+    return float(math.frexp(x)[1] - 1)
+
+
+def _fmax(x: float, y: float) -> float:
+    return y if math.isnan(x) else (x if math.isnan(y) else max(x, y))
+
+
+def _fmin(x: float, y: float) -> float:
+    return y if math.isnan(x) else (x if math.isnan(y) else min(x, y))
+
+
 def _fma(x, y, z) -> float:
+    if any(math.isnan(v) or math.isinf(v) for v in (x, y, z)):
+        return x * y + z
     return float(Fraction(x) * Fraction(y) + Fraction(z))
 
 
@@ -522,15 +559,16 @@ REF = {
     "sin": math.sin, "cos": math.cos, "tan": math.tan, "acos": math.acos, "asin": math.asin, "atan": math.atan, "atan2": math.atan2,
     "sinh": math.sinh, "cosh": math.cosh, "tanh": math.tanh, "asinh": math.asinh, "acosh": math.acosh, "atanh": math.atanh,
     "exp": math.exp, "ldexp": lambda x, n: math.ldexp(x, int(n)), "log": math.log, "ln": math.log, "log10": math.log10,
-    "exp2": lambda x: 2.0 ** x, "expm1": math.expm1, "ilogb": lambda x: float(math.frexp(x)[1] - 1), "log1p": math.log1p, "log2": math.log2,
+    "exp2": lambda x: 2.0 ** x, "expm1": math.expm1, "ilogb": _ilogb, "log1p": math.log1p, "log2": math.log2,
     "scalbn": lambda x, n: math.ldexp(x, int(n)), "scalbln": lambda x, n: math.ldexp(x, int(n)),
     "pow": math.pow, "sqrt": math.sqrt, "cbrt": lambda x: math.copysign(abs(x) ** (1.0 / 3.0), x), "hypot": math.hypot,
     "erf": math.erf, "erfc": math.erfc, "tgamma": math.gamma, "lgamma": math.lgamma,
     "ceil": lambda x: float(math.ceil(x)), "floor": lambda x: float(math.floor(x)), "fmod": math.fmod, "trunc": lambda x: float(math.trunc(x)),
     "round": _c_round, "rint": lambda x: float(round(x)), "nearbyint": lambda x: float(round(x)), "remainder": math.remainder,
     "copysign": math.copysign, "nan": lambda s: float("nan"), "nextafter": math.nextafter, "nexttoward": math.nextafter,
-    "fdim": lambda x, y: max(x - y, 0.0), "fmax": lambda x, y: max(x, y), "fmin": lambda x, y: min(x, y),
+    "fdim": lambda x, y: max(x - y, 0.0), "fmax": _fmax, "fmin": _fmin,
     "fabs": math.fabs, "abs": abs, "fma": _fma,
+    "remquo": lambda x, y, q=None: math.remainder(x, y),
 }
 if hasattr(math, "cbrt"):
     REF["cbrt"] = math.cbrt
@@ -803,6 +841,8 @@ def main_cases(ctx, g) -> List[Tuple[str, str, Any]]:
             for v in variants:
                 e = mk(call_of(n, v))
                 for b in backs:
+                    if ctx.tier == "quick" and b != "atlas" and cname not in ("alone", "times2plus1", "half"):
+                        continue
                     out.append(("row:" + cname, b, e))
     # abs / pow applied to integers outside division: still exact
     for e in [("call", "abs", [("un", "USub", ("i", 3))]), ("bin", "Mult", ("call", "abs", [("m", "nI")]), ("i", 2)),
@@ -882,9 +922,9 @@ def judge(ctx, cases: List[Tuple[str, str, Any]], numeric: bool) -> List[Dict[st
     (if `numeric`) the compiled expression against the function of that name.  Returns one record per case."""
     recs = []
     reqs = []
-    for stream, b, e in cases:
+    all_obs = observe_many([(b, to_src(e)) for _, b, e in cases])
+    for (stream, b, e), obs in zip(cases, all_obs):
         sep = BACKENDS[b]["sep"]
-        obs = observe(b, e)
         j = to_json(e, sep)
         recs.append({"stream": stream, "backend": b, "expr": e, "src": to_src(e), "obs": obs})
         reqs.append({"op": "tr", "expr": j})
@@ -896,7 +936,7 @@ def judge(ctx, cases: List[Tuple[str, str, Any]], numeric: bool) -> List[Dict[st
     for i, r in enumerate(recs):
         r["model"], r["spec"] = ans[2 * i], ans[2 * i + 1]
         r["numeric"] = None
-        if numeric and "bad" not in r["model"] and r["model"].get("documented") and "err" not in r["obs"] and r["spec"].get("holds"):
+        if numeric and "bad" not in r["model"] and r["model"].get("documented") and "err" not in r["obs"] and (r["spec"].get("holds") or numeric == "always"):
             smp = samples_for(r["expr"], ctx.tier)
             ref = []
             for s in smp:
@@ -965,6 +1005,9 @@ def report(ctx, r, keyprefix: str = "emit") -> Optional[str]:
         return None
     if not r["spec"].get("holds", False):
         why = r["spec"].get("why")
+        nf = numeric_failure(r)
+        if nf:
+            why += "; " + nf
     else:
         why = numeric_failure(r)
     if why is None:
@@ -1024,7 +1067,7 @@ def check_table(ctx, g) -> None:
         ctx.disagreement("table: rows read from the source vs functions_to_replace at run time", {"first_differences": diff}, list(eff.values())[:0], live[:0])
     ans = ctx.driver(DRIVER, [{"op": "row", "row": r} for r in live])
     for r, a in zip(live, ans):
-        ctx.case({"row": r}, True, {"row": r, "spec": a})
+        ctx.case({"row": r}, True, {"table_row": r, "row_spec_on_live_table": a} if r["py"] in ("floor", "builtins.abs") else None)
         if "bad" in a:
             continue
         if not a.get("holds", False):
@@ -1079,7 +1122,7 @@ def check_resolver(ctx, g) -> None:
             return m
 
         ctx.count("resolver:" + ("replaced" if im.get("row") else ("error" if "err" in im else "left-alone")))
-        ctx.case({"resolve": n}, bool(im.get("row")) or "err" in im or n in readme, {"name": n, "implementation": im, "model": m1})
+        ctx.case({"resolve": n}, bool(im.get("row")) or "err" in im or n in readme, {"resolve_call_of": n, "implementation": im, "model": m1} if n in ("abs", "round") else None)
         if strip(m1) != im:
             ctx.disagreement("find_known_functions vs findKnown (generated eval scope)", {"name": n}, strip(m1), im)
         if strip(m2) != im:
@@ -1105,7 +1148,7 @@ def run(ctx):
     # 1. listed findings (still failing -> KNOWN-FINDING) and repaired ones (failing again -> violation)
     known = [e for e in ctx.known_entries("known") if e.get("input", {}).get("expr")]
     fixed = [e for e in ctx.known_entries("fixed") if e.get("input", {}).get("expr")]
-    recs = judge(ctx, [("finding", e["input"]["backend"], _tuplify(e["input"]["expr"])) for e in known + fixed], numeric=True)
+    recs = judge(ctx, [("finding", e["input"]["backend"], _tuplify(e["input"]["expr"])) for e in known + fixed], numeric="always")
     for e, r in zip(known + fixed, recs):
         ctx.count("stream:findings")
         if e["status"] == "known":
@@ -1150,7 +1193,7 @@ def run(ctx):
         if "ok" in r["model"] and not r["model"].get("roundtrip", False):
             ctx.disagreement("parseCpp (render term) = term", {"src": r["src"]}, r["model"], None)
     ctx.extra_cov["exhaustive"] = False
-    ctx.extra_cov["exhaustive_part"] = ("every function of the README list x 11 arithmetic contexts x 3 backends (translation, Spec, compiled value at the sample points of its domain); "
+    ctx.extra_cov["exhaustive_part"] = ("every function of the README list x 11 arithmetic contexts on ATLAS and 3 (quick) / 11 (thorough) on the CMS backends (translation, Spec, compiled value at the sample points of its domain); "
                                         "every row of the live table (row Spec); every python builtin, module global and documented name through the resolver")
 
 
@@ -1158,7 +1201,8 @@ def report_why(r) -> Optional[str]:
     if "bad" in r["spec"]:
         return None
     if not r["spec"].get("holds", False):
-        return r["spec"].get("why")
+        nf = numeric_failure(r)
+        return r["spec"].get("why") + ("; " + nf if nf else "")
     return numeric_failure(r)
 
 
@@ -1215,7 +1259,7 @@ def search(ctx, broken):
 def replay(ctx, rep) -> int:
     case = rep.get("case") or {}
     if "expr" in case:
-        r = judge(ctx, [("replay", case["backend"], _tuplify(case["expr"]))], numeric=True)[0]
+        r = judge(ctx, [("replay", case["backend"], _tuplify(case["expr"]))], numeric="always")[0]
         print("query expression:", r["src"], " backend:", r["backend"])
         print("translator:", r["obs"])
         print("model:", canon_model(r["model"]))
